@@ -42,6 +42,8 @@
 (*   loff  landmark offset; size blob size; cs registry chunk size;        *)
 (*   cfg   configured prefetch size; thr PrefetchAsyncSize;                *)
 (*   np,nw,nb  number of Prefetch / Wait / BackgroundFetch callers         *)
+(*   f0    registry chunks fetched while the layer was resolved (TOC)      *)
+(*   rd    files that Read may read in this scenario                       *)
 (* Sets inside sc are sequences (they come from JSON).                     *)
 (*                                                                         *)
 (* Deliberate deviations from the code (also listed in the evidence):      *)
@@ -132,7 +134,7 @@ Init ==
     /\ wc = [w \in 1..sc.nw |-> "idle"]
     /\ bc = [b \in 1..sc.nb |-> "idle"] /\ brunner = 0
     /\ bg = "none" /\ bgres = "none" /\ prio = 0
-    /\ fetched = {}
+    /\ fetched = ToSet(sc.f0)                      \* footer and TOC were read when the layer was resolved
     /\ lst = [f \in 1..sc.nf |-> 0]
     /\ reg = "on"
     /\ last = [act |-> "Init", req |-> {}]
@@ -171,33 +173,49 @@ BlobCacheStall ==
     /\ UNCHANGED <<sc, pc, runner, pfres, psize, pinfo, waiter, wc, bc, brunner, bg, bgres, prio, fetched, lst, reg>>
     /\ last' = [act |-> "BlobCacheStall", req |-> Cover(psize) \ fetched]
 
-BlobCache(r) ==
+\* The "G" forms take what the step fetched (got), the chunk-cache state it left (l2) and the requests it made (rq) as
+\* arguments, bounded by what the design allows; the plain forms used by Next pick the canonical values, the trace
+\* spec passes the values observed on the implementation.
+BlobCacheG(r, got, rq) ==
     /\ pf \in {"thresh", "stalled"}
     /\ LET need == Cover(psize) \ fetched IN
         /\ r = "fail" => need # {}
         /\ r = "ok" => (need = {} \/ reg = "on")
         /\ IF r = "ok"
-           THEN /\ fetched' = fetched \cup need
+           THEN /\ need \subseteq got /\ got \subseteq Hull(need)
+                /\ fetched' = fetched \cup got
                 /\ pf' = "fetched" /\ pinfo' = psize /\ UNCHANGED pfres
            ELSE /\ pf' = "finishing" /\ pfres' = "fail" /\ UNCHANGED <<fetched, pinfo>>
-        /\ last' = [act |-> "BlobCache", r |-> r, req |-> IF pf = "stalled" THEN {} ELSE need]
+        /\ last' = [act |-> "BlobCache", r |-> r, req |-> rq]
     /\ UNCHANGED <<sc, pc, runner, psize, waiter, wc, bc, brunner, bg, bgres, prio, lst, reg>>
+BlobCache(r) == BlobCacheG(r, Cover(psize) \ fetched, IF pf = "stalled" THEN {} ELSE Cover(psize) \ fetched)
 
-ReaderCache(r) ==
+\* bounds for a walk over the files F that decompresses and caches them
+NeedMin(F) == UnionOf({f \in F : lst[f] = 0}, Span) \ fetched
+GotMax(F) == UnionOf({f \in F : lst[f] # 2}, LAMBDA f : Hull(Span(f)))
+Monotone(l2, F) == \A f \in Files : l2[f] \in lst[f]..2 /\ (l2[f] > lst[f] => (f \in F \/ \E g \in F : f \in Pre(g)))
+
+ReaderCacheG(r, got, l2, rq) ==
     /\ pf = "fetched"
     /\ LET F == RangeFiles(psize)
            need == Missing(F) IN
         /\ r = "fail" => need # {}
         /\ r = "ok" => (need = {} \/ reg = "on")
         /\ IF r = "ok"
-           THEN /\ fetched' = fetched \cup need
-                /\ lst' = MarkFull(lst, F)
+           THEN /\ NeedMin(F) \subseteq got /\ got \subseteq GotMax(F)
+                /\ l2 = MarkFull(lst, F)
                 /\ pfres' = "ok"
-           ELSE /\ lst' = MarkFull(lst, {f \in F : Servable(f)})
-                /\ pfres' = "fail" /\ UNCHANGED fetched
-        /\ last' = [act |-> "ReaderCache", r |-> r, req |-> need]
+           ELSE /\ got \subseteq GotMax(F) /\ Monotone(l2, F)
+                /\ pfres' = "fail"
+        /\ fetched' = fetched \cup got
+        /\ lst' = l2
+        /\ last' = [act |-> "ReaderCache", r |-> r, req |-> rq]
     /\ pf' = "finishing"
     /\ UNCHANGED <<sc, pc, runner, psize, pinfo, waiter, wc, bc, brunner, bg, bgres, prio, reg>>
+ReaderCache(r) ==
+    LET F == RangeFiles(psize) IN
+    IF r = "ok" THEN ReaderCacheG(r, Missing(F), MarkFull(lst, F), Missing(F))
+    ELSE ReaderCacheG(r, {}, MarkFull(lst, {f \in F : Servable(f)}), Missing(F))
 
 PrefetchEnd ==
     /\ pf = "finishing"
@@ -255,7 +273,7 @@ BgStall ==
     /\ UNCHANGED <<sc, pc, runner, pf, pfres, psize, pinfo, waiter, wc, bc, brunner, bgres, prio, fetched, lst, reg>>
     /\ last' = [act |-> "BgStall", req |-> {}]
 
-BgFinish(r) ==
+BgFinishG(r, got, l2, rq) ==
     /\ bg \in {"started", "stalled", "suspended"} /\ BgMayRun
     /\ bg = "started" => ~Held
     /\ LET F == BgFiles
@@ -263,12 +281,19 @@ BgFinish(r) ==
         /\ r = "fail" => need # {}
         /\ r = "ok" => (need = {} \/ reg = "on")
         /\ IF r = "ok"
-           THEN /\ fetched' = fetched \cup need /\ lst' = MarkFull(lst, F)
-           ELSE /\ lst' = MarkFull(lst, {f \in F : Servable(f)}) /\ UNCHANGED fetched
-        /\ last' = [act |-> "BgFinish", r |-> r, b |-> brunner, req |-> need]
+           THEN NeedMin(F) \subseteq got /\ got \subseteq GotMax(F) /\ l2 = MarkFull(lst, F)
+           ELSE got \subseteq GotMax(F) /\ Monotone(l2, F)
+        /\ fetched' = fetched \cup got
+        /\ lst' = l2
+        /\ last' = [act |-> "BgFinish", r |-> r, b |-> brunner, req |-> rq]
     /\ bg' = "end" /\ bgres' = r
     /\ bc' = [bc EXCEPT ![brunner] = "ret"]
     /\ UNCHANGED <<sc, pc, runner, pf, pfres, psize, pinfo, waiter, wc, brunner, prio, reg>>
+
+BgFinish(r) ==
+    LET F == BgFiles IN
+    IF r = "ok" THEN BgFinishG(r, Missing(F), MarkFull(lst, F), Missing(F))
+    ELSE BgFinishG(r, {}, MarkFull(lst, {f \in F : Servable(f)}), Missing(F))
 
 BgReturn(b) ==
     /\ bc[b] = "in" /\ b # brunner /\ bg = "end"
@@ -290,15 +315,22 @@ PrioEnd ==
     /\ last' = [act |-> "PrioEnd", req |-> {}]
 
 \* ------------------------------------------------------------------- reads
-Read(f) ==
+ReadG(f, ok, got, l2, rq) ==
     /\ ~Held
-    /\ LET need == IF lst[f] = 2 THEN {} ELSE Span(f) \ fetched
-           ok == need = {} \/ reg = "on" IN
+    /\ f \in ToSet(sc.rd)                           \* files this scenario reads (bounds the exhaustive runs)
+    /\ LET need == IF lst[f] = 2 THEN {} ELSE Span(f) \ fetched IN
+        /\ ok = (need = {} \/ reg = "on")
         /\ IF ok
-           THEN fetched' = fetched \cup need /\ lst' = MarkFull(lst, {f})
-           ELSE UNCHANGED <<fetched, lst>>
-        /\ last' = [act |-> "Read", f |-> f, ok |-> ok, req |-> need]
+           THEN NeedMin({f}) \subseteq got /\ got \subseteq GotMax({f}) /\ l2 = MarkFull(lst, {f})
+           ELSE got = {} /\ Monotone(l2, {f})
+        /\ fetched' = fetched \cup got
+        /\ lst' = l2
+        /\ last' = [act |-> "Read", f |-> f, ok |-> ok, req |-> rq]
     /\ UNCHANGED <<sc, pc, runner, pf, pfres, psize, pinfo, waiter, wc, bc, brunner, bg, bgres, prio, reg>>
+Read(f) ==
+    LET need == IF lst[f] = 2 THEN {} ELSE Span(f) \ fetched IN
+    IF need = {} \/ reg = "on" THEN ReadG(f, TRUE, need, MarkFull(lst, {f}), need)
+    ELSE ReadG(f, FALSE, {}, lst, need)
 
 RegistryOff ==
     /\ AllowReg /\ reg = "on" /\ ~Held
@@ -326,7 +358,8 @@ Next ==
 Spec == Init /\ [][Next]_vars
 
 \* fairness for the liveness part of WaitReturns: only the waiter's own two branches
-FairSpec == Spec /\ \A w \in 1..3 : WF_vars(w \in 1..sc.nw /\ WaitReturn(w)) /\ WF_vars(w \in 1..sc.nw /\ WaitTimeout(w))
+\* (the liveness configuration uses scenarios with exactly two waiters)
+FairSpec == Spec /\ \A w \in 1..2 : WF_vars(WaitReturn(w)) /\ WF_vars(WaitTimeout(w))
 
 ----------------------------------------------------------------------------
 (* Property C15. Every formula speaks about the observable part only       *)
@@ -372,10 +405,13 @@ WaitResult ==
     /\ last.act = "WaitReturn" => last.res = "ok"
     /\ last.act = "WaitTimeout" => last.res = "timeout"
 \* ... and a waiting caller can always move (absence of a state in which a waiter blocks forever)
-WaitNeverStuck ==
+WaitNeverStuckE ==
     \A w \in 1..sc.nw : wc[w] = "waiting" => (ENABLED WaitReturn(w) \/ ENABLED WaitTimeout(w))
+\* (the same without ENABLED, which is slow in TLC; the liveness configuration checks the ENABLED form)
+WaitNeverStuck ==
+    \A w \in 1..sc.nw : wc[w] = "waiting" => (waiter = "closed" \/ (waiter = "open" /\ WaitHonoursTimeout))
 \* liveness (FairSpec): every wait returns
-WaitReturns == \A w \in 1..3 : (w \in 1..sc.nw /\ wc[w] = "waiting") ~> (wc[w] \in {"ok", "timeout"})
+WaitReturns == \A w \in 1..2 : (wc[w] = "waiting") ~> (wc[w] \in {"ok", "timeout"})
 
 \* internal consistency
 TypeOK ==
